@@ -128,4 +128,55 @@ Bootstrap's own; otherwise `otherPort` (unknown). -/
 def bootDial (ownPort : Bool) (otherPort : Boot → UInt16) (b : Boot) : Bytes × UInt16 :=
   (b.fqdn, if ownPort then b.port else otherPort b)
 
+/-! ## DoH / HTTP3: what Go's HTTP clients derive from the endpoint URL
+
+For `https` / `h3` mosdns does not compute a server name itself: it hands an
+endpoint URL to `net/http` (or quic-go's http3), which verify the certificate
+against, and send as SNI, `URL.Hostname()` of the request URL, and send the
+URL's host as `Host` / `:authority`. `urlHostname` models `URL.Hostname()`
+(`net/url` `splitHostPort` + bracket stripping); which host the endpoint URL
+carries is read from the source (facts `c18DohEndpointIsAddrUrl`,
+`c18DohRequestKeepsEndpointHost`, `c18DohRestoresV6Brackets`); where the first
+two do not hold the model knows nothing and an arbitrary function stands for
+the code. `netip.ParseAddr(..).Is6()` is a parameter (`isV6`). -/
+
+def isDigit (b : UInt8) : Bool := decide (48 ≤ b) && decide (b ≤ 57)
+
+/-- `net/url` `validOptionalPort`: empty, or a colon followed by decimal digits only -/
+def validOptionalPort : Bytes → Bool
+  | [] => true
+  | c :: rest => c == colon && rest.all isDigit
+
+/-- split at the last colon: (what is before it, the rest from the colon on) -/
+def splitLastColon : Bytes → Option (Bytes × Bytes)
+  | [] => none
+  | c :: rest =>
+    match splitLastColon rest with
+    | some (a, b) => some (c :: a, b)
+    | none => if c = colon then some ([], c :: rest) else none
+
+/-- `net/url` `splitHostPort`, first half: cut a valid optional port off -/
+def stripPort (hp : Bytes) : Bytes :=
+  match splitLastColon hp with
+  | some (a, b) => if validOptionalPort b then a else hp
+  | none => hp
+
+/-- `(*url.URL).Hostname()` of a URL whose Host is `hp` -/
+def urlHostname (hp : Bytes) : Bytes := trimBrackets (stripPort hp)
+
+/-- The Host of the URL the DoH requests are sent to, for an upstream whose
+address has URL host `urlHost`. With `keeps` it is the URL host as written,
+except that - with `restores` - an IPv6 literal written without brackets
+(`isV6`: `netip.ParseAddr` succeeds with an IPv6 address) gets its brackets
+back; without `keeps` it is `other` (unknown). -/
+def dohEndpointHost (keeps restores : Bool) (other : Bytes → Bytes) (isV6 : Bytes → Bool)
+    (urlHost : Bytes) : Bytes :=
+  if keeps then (if restores && isV6 urlHost then lbr :: urlHost ++ [rbr] else urlHost)
+  else other urlHost
+
+/-- the TLS server name of a DoH / HTTP3 upstream -/
+def dohServerName (keeps restores : Bool) (other : Bytes → Bytes) (isV6 : Bytes → Bool)
+    (urlHost : Bytes) : Bytes :=
+  urlHostname (dohEndpointHost keeps restores other isV6 urlHost)
+
 end Model.C18
